@@ -39,6 +39,8 @@ for name in sorted(os.listdir(root)):
     }
     ov = extra.pop('confirmed_by_me_override', None)
     meta.update(extra)
+    if 'caught_by_after_strengthening' in meta:
+        meta['caught_by'] = sorted(set(meta['caught_by']) | set(meta['caught_by_after_strengthening']))
     if ov: meta['confirmed_by_me'].update(ov)
     json.dump(meta, open(os.path.join(d, 'meta.json'), 'w'), indent=1)
     print(name, 'caught_by', meta['caught_by'], 'suite_ok', meta['confirmed_by_me']['pinned_suite_ok'],
